@@ -148,17 +148,30 @@ pub fn cmsg_small() -> impl Strategy<Value = CMsg> {
 
 pub fn cfile(tier_big: bool) -> impl Strategy<Value = CFile> {
     let n = if tier_big { 0..9usize } else { 0..5usize };
-    prop_oneof![
+    let files = prop_oneof![
         60 => vec(cmsg(tier_big), n).prop_map(|msgs| CFile { msgs }),
         // many messages in one file (state carried from message to message)
         1 => vec(cmsg_small(), 5..40).prop_map(|msgs| CFile { msgs }),
         1 => vec(cmsg_small(), 250..300).prop_map(|msgs| CFile { msgs }),
-    ]
+    ];
+    // in one file out of six the messages that ask for the shortened checksum field really get one
+    (files, 0u8..6).prop_map(|(mut f, g)| {
+        if g == 0 {
+            grind_short_crc(&mut f);
+        }
+        f
+    })
 }
 
 /// A typical meter transmission: open, get-list, close.
 pub fn cfile_typical() -> impl Strategy<Value = CFile> {
-    (cmsg(false), cmsg(false), cmsg(false)).prop_map(|(a, b, c)| CFile { msgs: vec![a, b, c] })
+    (cmsg(false), cmsg(false), cmsg(false), 0u8..6).prop_map(|(a, b, c, g)| {
+        let mut f = CFile { msgs: vec![a, b, c] };
+        if g == 0 {
+            grind_short_crc(&mut f);
+        }
+        f
+    })
 }
 
 /// A fixed three-message file that contains every construct of the supported subset at least
